@@ -72,10 +72,15 @@ class Ctx:
 # ----------------------------------------------------------------------------------------------------------
 def load_known(pid):
     res = {}
-    p = os.path.join(VERIF, "KNOWN_FINDINGS.txt")
-    if not os.path.exists(p):
-        return res
-    for ln in open(p):
+    paths = [os.path.join(VERIF, "KNOWN_FINDINGS.txt")]
+    # builders testing the known-findings mechanism use a private extra file instead of editing the shared one
+    if os.environ.get("VERIF_KNOWN_EXTRA"):
+        paths.append(os.environ["VERIF_KNOWN_EXTRA"])
+    lines = []
+    for p in paths:
+        if os.path.exists(p):
+            lines += open(p).read().splitlines()
+    for ln in lines:
         ln = ln.strip()
         m = re.match(r"finding:\s+property=(\S+)\s+key=(\S+)\s*(.*)", ln)
         if m and m.group(1) == pid:
